@@ -9,7 +9,8 @@ Inductive c20_case :=
 | Sha (input digest : bytes)                 (* crypto/sha256 *)
 | MPath (path expected : bytes)              (* types.MerklePath *)
 | AddM (path app expected : bytes)           (* types.AddToMerkle *)
-| Post (hparent hchild expected : bytes).    (* MsgPostFileResponse.Path of filetree PostFile *)
+| Post (hparent hchild expected : bytes)     (* MsgPostFileResponse.Path of filetree PostFile *)
+| Helper (path hparent hchild : bytes).      (* types.MerkleHelper: the client-side split of a plain path *)
 
 Definition c20_ok (c : c20_case) : bool :=
   match c with
@@ -17,4 +18,5 @@ Definition c20_ok (c : c20_case) : bool :=
   | MPath p e => beqb (merkle_path sha256 p) e
   | AddM p a e => beqb (add_to_merkle sha256 p a) e
   | Post hp hc e => beqb (post_file_path sha256 hp hc) e
+  | Helper p hp hc => let (mp, mc) := client_split sha256 p in beqb mp hp && beqb mc hc
   end.
